@@ -46,18 +46,20 @@ package table
 //@   ensures nh.nprop == old(nh.nprop) + 1
 //@   ensures err == nil ==> world.lastRev == revOf(res.Data)      // ghost: the revision encoded in the Result the state machine produced for this proposal
 //@   modifies nh.nprop, world.lastRev
+//@ ghostfield any.lastAns Iface
 //@ iface table.raftHandler.SyncRead
 //@   assumed
 //@   params nh, ctx, id, req
 //@   results val, err
 //@   ensures nh.nsync == old(nh.nsync) + 1 && nh.nstale == old(nh.nstale) && nh.lastReq == req      // ghost: the query that was handed to the state machine
-//@   modifies nh.nsync, nh.lastReq
+//@   ensures nh.lastAns == val                                                                      // ghost: and what it answered
+//@   modifies nh.nsync, nh.lastReq, nh.lastAns
 //@ iface table.raftHandler.StaleRead
 //@   assumed
 //@   params nh, id, req
 //@   results val, err
-//@   ensures nh.nstale == old(nh.nstale) + 1 && nh.nsync == old(nh.nsync) && nh.lastReq == req
-//@   modifies nh.nstale, nh.lastReq
+//@   ensures nh.nstale == old(nh.nstale) + 1 && nh.nsync == old(nh.nsync) && nh.lastReq == req && nh.lastAns == val
+//@   modifies nh.nstale, nh.lastReq, nh.lastAns
 
 // ActiveTable.Put: empty / oversized key and oversized value are refused before anything is proposed;
 // otherwise exactly one proposal.
@@ -96,7 +98,7 @@ package table
 //@   ensures [C16.txn.limits] !(okOps(req.Success) && okOps(req.Failure)) ==> err != nil && t.nh.nprop == old(t.nh.nprop)
 //@   ensures [C10.txn.rev]   err == nil && t.nh.nprop == old(t.nh.nprop) + 1 ==> resp != nil && resp.Header != nil && resp.Header.Revision == world.lastRev
 //@   ensures err == nil && t.nh.nprop == old(t.nh.nprop) + 1 ==> fresh(resp) && fresh(resp.Header)
-//@   modifies t.nh.nprop, t.nh.nsync, t.nh.nstale, t.nh.lastReq, world.lastRev
+//@   modifies t.nh.nprop, t.nh.nsync, t.nh.nstale, t.nh.lastReq, t.nh.lastAns, world.lastRev
 //@ pure func roAllRange(req *regattapb.TxnRequest) bool = (forall j int :: 0 <= j && j < len(req.Success) ==> typeIs(req.Success[j].Request, *regattapb.RequestOp_RequestRange)) && (forall j int :: 0 <= j && j < len(req.Failure) ==> typeIs(req.Failure[j].Request, *regattapb.RequestOp_RequestRange))
 
 // validateRequestOps: nil exactly when every operation respects the limits
@@ -726,7 +728,8 @@ package table
 //@   requires t != nil && t.nh != nil
 //@   ensures [C10.read.path] (linearizable ==> t.nh.nsync == old(t.nh.nsync) + 1 && t.nh.nstale == old(t.nh.nstale)) && (!linearizable ==> t.nh.nstale == old(t.nh.nstale) + 1 && t.nh.nsync == old(t.nh.nsync))
 //@   ensures [C10.read.req] t.nh.lastReq == req      // the query reaches the state machine as it was given
-//@   modifies t.nh.nsync, t.nh.nstale, t.nh.lastReq
+//@   ensures [C10.read.answer+C09+C01] err == nil ==> typeIs(t.nh.lastAns, S) && s == asType(t.nh.lastAns, S)      // and its answer reaches the caller as it was given
+//@   modifies t.nh.nsync, t.nh.nstale, t.nh.lastReq, t.nh.lastAns
 
 // the two index queries ask for what their names say: the follower's resume point is the recorded
 // LEADER index, the replication server's upper bound is the LOCAL (applied) index
@@ -735,13 +738,13 @@ package table
 //@   requires t != nil && t.nh != nil
 //@   ensures [C05.query.leader+C03] typeIs(t.nh.lastReq, fsm.LeaderIndexRequest)
 //@   ensures [C05.query.path] (linearizable ==> t.nh.nsync == old(t.nh.nsync) + 1 && t.nh.nstale == old(t.nh.nstale)) && (!linearizable ==> t.nh.nstale == old(t.nh.nstale) + 1 && t.nh.nsync == old(t.nh.nsync))
-//@   modifies t.nh.nsync, t.nh.nstale, t.nh.lastReq
+//@   modifies t.nh.nsync, t.nh.nstale, t.nh.lastReq, t.nh.lastAns
 
 //@ func (*ActiveTable).LocalIndex#query
 //@   maypanic
 //@   requires t != nil && t.nh != nil
 //@   ensures [C06.query.local+C05] typeIs(t.nh.lastReq, fsm.LocalIndexRequest)
-//@   modifies t.nh.nsync, t.nh.nstale, t.nh.lastReq
+//@   modifies t.nh.nsync, t.nh.nstale, t.nh.lastReq, t.nh.lastAns
 
 // Snapshot (what a follower restores from): always through the consensus read path - a snapshot
 // served by a lagging replica would move a follower's content and leader index backwards
@@ -749,16 +752,17 @@ package table
 //@   maypanic
 //@   requires t != nil && t.nh != nil && ctx != nil
 //@   ensures [C05.snapshot.sync+C07+C10] t.nh.nsync == old(t.nh.nsync) + 1 && t.nh.nstale == old(t.nh.nstale)
-//@   modifies t.nh.nsync, t.nh.nstale, t.nh.lastReq
+//@   modifies t.nh.nsync, t.nh.nstale, t.nh.lastReq, t.nh.lastAns
 // Range / Iterator: the consistency level requested by the caller decides the read path
 //@ func (*ActiveTable).Range
 //@   maypanic
 //@   results resp, err
 //@   requires t != nil && t.nh != nil && req != nil
 //@   ensures [C09.range.req] len(req.Key) <= 1024 && len(req.RangeEnd) <= 1024 ==> typeIs(t.nh.lastReq, *regattapb.RequestOp_Range) && asType(t.nh.lastReq, *regattapb.RequestOp_Range) != nil && sameSlice(asType(t.nh.lastReq, *regattapb.RequestOp_Range).Key, req.Key) && sameSlice(asType(t.nh.lastReq, *regattapb.RequestOp_Range).RangeEnd, req.RangeEnd) && asType(t.nh.lastReq, *regattapb.RequestOp_Range).Limit == req.Limit && asType(t.nh.lastReq, *regattapb.RequestOp_Range).KeysOnly == req.KeysOnly && asType(t.nh.lastReq, *regattapb.RequestOp_Range).CountOnly == req.CountOnly
+//@   ensures [C09.range.answer+C01] err == nil ==> resp != nil && typeIs(t.nh.lastAns, *regattapb.ResponseOp_Range) && resp.Count == asType(t.nh.lastAns, *regattapb.ResponseOp_Range).Count && resp.More == asType(t.nh.lastAns, *regattapb.ResponseOp_Range).More && sameSlice(resp.Kvs, asType(t.nh.lastAns, *regattapb.ResponseOp_Range).Kvs)      // the state machine's answer, field by field
 //@   ensures [C10.range.path] len(req.Key) <= 1024 && len(req.RangeEnd) <= 1024 ==> (req.Linearizable ==> t.nh.nsync == old(t.nh.nsync) + 1 && t.nh.nstale == old(t.nh.nstale)) && (!req.Linearizable ==> t.nh.nstale == old(t.nh.nstale) + 1 && t.nh.nsync == old(t.nh.nsync))
 //@   ensures [C16.range.limits] len(req.Key) > 1024 || len(req.RangeEnd) > 1024 ==> err == serrors.ErrKeyLengthExceeded && t.nh.nsync == old(t.nh.nsync) && t.nh.nstale == old(t.nh.nstale)
-//@   modifies t.nh.nsync, t.nh.nstale, t.nh.lastReq
+//@   modifies t.nh.nsync, t.nh.nstale, t.nh.lastReq, t.nh.lastAns
 //@ func (*ActiveTable).Iterator
 //@   maypanic
 //@   results s, err
@@ -766,7 +770,7 @@ package table
 //@   ensures [C16.iter.limits] len(req.Key) > 1024 || len(req.RangeEnd) > 1024 ==> err == serrors.ErrKeyLengthExceeded && t.nh.nsync == old(t.nh.nsync) && t.nh.nstale == old(t.nh.nstale)      // the streamed read refuses what the unary read refuses
 //@   ensures [C09.iter.req] len(req.Key) <= 1024 && len(req.RangeEnd) <= 1024 ==> typeIs(t.nh.lastReq, fsm.IteratorRequest) && asType(t.nh.lastReq, fsm.IteratorRequest).RangeOp != nil && sameSlice(asType(t.nh.lastReq, fsm.IteratorRequest).RangeOp.Key, req.Key) && sameSlice(asType(t.nh.lastReq, fsm.IteratorRequest).RangeOp.RangeEnd, req.RangeEnd) && asType(t.nh.lastReq, fsm.IteratorRequest).RangeOp.Limit == req.Limit && asType(t.nh.lastReq, fsm.IteratorRequest).RangeOp.KeysOnly == req.KeysOnly && asType(t.nh.lastReq, fsm.IteratorRequest).RangeOp.CountOnly == req.CountOnly      // the streamed read asks the state machine for exactly what the caller asked
 //@   ensures [C10.iter.path] len(req.Key) <= 1024 && len(req.RangeEnd) <= 1024 ==> (req.Linearizable ==> t.nh.nsync == old(t.nh.nsync) + 1 && t.nh.nstale == old(t.nh.nstale)) && (!req.Linearizable ==> t.nh.nstale == old(t.nh.nstale) + 1 && t.nh.nsync == old(t.nh.nsync))
-//@   modifies t.nh.nsync, t.nh.nstale, t.nh.lastReq
+//@   modifies t.nh.nsync, t.nh.nstale, t.nh.lastReq, t.nh.lastAns
 
 // ---------------------------------------------------------------- constructor (C13, C14, C15)
 
